@@ -32,7 +32,7 @@ def floors(tier):
     f = {"evals": {"decode": 8000, "decode.file": 500, "agreement": 1500}, "classes": {}}
     for fmt in TC.FORMATS:
         f["classes"]["C02:spec-reader:%s" % fmt] = 500
-    for c in ("keyword", "quote", "newline", "override-above", "override-below", "partition-checked", "point-tier", "exponent-number"):
+    for c in ("keyword", "quote", "newline", "override-above", "override-below", "partition-checked", "point-tier", "exponent-number", "sliver-structure"):
         f["classes"]["C02:%s" % c] = 50
     return f
 
@@ -292,6 +292,29 @@ def workload(tier, rng, shard, nshards, work):
                         call(textgrid_io.getTextgridAsStr, _tgToDictionary(tg), fmt, blanks, minT, maxT, thr)
             agreement(tg, data, True, None if tiny else 1e-8)
             agreement(tg, data, False, 1e-8)
+            if i % 4 == 0:
+                # sub-threshold slivers (C04's subject): here only the structure of the written partition is judged
+                segs = [(rng.choice([0.2, 0.05, 1.0]), rng.choice(["a", "b", None])) for _ in range(rng.randrange(1, 4))]
+                chain = [(rng.choice([3e-9, 4e-9, 6e-9, 9e-9]), rng.choice(["s", None])) for _ in range(rng.randrange(1, 4))]
+                tail = [(rng.choice([0.3, 0.07]), rng.choice(["t", None]))] if rng.random() < 0.5 else []
+                cur = rng.choice([0.0, 0.37])
+                ents = []
+                for length, lab in segs + chain + tail:
+                    nxt = cur + length
+                    if lab is not None:
+                        ents.append((cur, nxt, lab))
+                    cur = nxt
+                top = cur + rng.choice([0.0, 2e-9, 7e-9])
+                if ents:
+                    REC.cls("C02:sliver-structure")
+                    d2 = {"min": 0.0, "max": top, "tiers": [{"t": "I", "name": "sl", "min": 0.0, "max": top, "entries": ents}]}
+                    try:
+                        tg2 = TC.build_tg(d2)
+                    except Exception:
+                        tg2 = None
+                    if tg2 is not None:
+                        for fmt in TC.FORMATS:
+                            call(textgrid_io.getTextgridAsStr, _tgToDictionary(tg2), fmt, True, None, None, 1e-8)
 
 
 def replay(v, work):
